@@ -10,6 +10,7 @@ CHECKS = {
             dict(pkg="protocol", name="C14_rt_call", bound="CALL method names of 0..38 and error types of 0..37 symbolic non-NUL bytes, all header field values", flags=["-witness", "5"], reach=["end"]),
             dict(pkg="protocol", name="C14_chunks_req", bound="BuildRequest of 1..2 arguments of 0..3 symbolic bytes, delivered in up to 3 reads cut at every pair of offsets", flags=["-witness", "100"], reach=["end"]),
             dict(pkg="protocol", name="C14_chunks_resp", bound="BuildResponse in status / error / bulk (0..3 bytes) / array (2 x 0..2 bytes) form, up to 3 reads cut at every pair of offsets", flags=["-witness", "100"], reach=["end"]),
+            dict(pkg="protocol", name="C14_chunks_long", bound="SET + one argument of 9 / 10 / 11 / 99 / 100 / 101 / 999 / 1000 / 1001 bytes (first, middle, last byte symbolic) through a 64-byte read buffer: first read of any 1..64 bytes, one later read of 1 / 2 / 3 / 64 bytes at any of three positions, all others full", flags=["-witness", "100"], reach=["end"]),
             dict(pkg="server", name="C14_inline_decode", bound="all LOCK/UNLOCK frames (every field value; no value frame) through the hand-inlined decoder in BinaryServerProtocol.ProcessParse against protocol.LockCommand.Decode, and the UNKNOWN_DB reply against LockResultCommand.Encode", flags=["-witness", "1"], reach=["end"]),
             dict(pkg="server", name="C14_inline_encode", bound="all command field values, result codes, counts, with and without an 8-byte value frame, through the hand-inlined encoder in BinaryServerProtocol.ProcessLockResultCommand against NewLockResultCommand(...).Encode and back through LockResultCommand.Decode", flags=["-witness", "1"], reach=["end"]),
             dict(pkg="protocol", name="C14_idnorm", bound="key/id strings of every length 0..64, all byte values, through ConvertArgId2LockId and ConvertString2LockKey against the documented rule", flags=["-witness", "1"], reach=["end"]),
